@@ -51,6 +51,32 @@ Proof.
     + intros (d' & H & A & B). injection H as <-. auto.
 Qed.
 
+(* the deviation clause of [snap_diff] *)
+Definition reported_var (bits : N) (e : dev) (mag : Q) : Prop :=
+  match e with
+  | DNaN => decode bits = FNaN
+  | DInf => decode bits = FInf false
+  | DSq v => exists d, decode bits = FNum d /\ 0 <= d /\
+               let D := Qabs (d * d - v) - eps * v in
+               (D <= 0 \/ D * D <= eps * eps * v * mag * mag)
+  end.
+
+Lemma dev_close_v_iff e bits mag : dev_close_v e (decode bits) mag = true <-> reported_var bits e mag.
+Proof.
+  unfold dev_close_v, reported_var. destruct e as [| |v]; destruct (decode bits) as [|neg|d].
+  - split; reflexivity.
+  - split; intros H; discriminate H.
+  - split; intros H; discriminate H.
+  - split; intros H; discriminate H.
+  - destruct neg; split; intros H; try reflexivity; try discriminate H.
+  - split; intros H; discriminate H.
+  - split; [intros H; discriminate H|intros (d' & H & _); discriminate H].
+  - split; [intros H; discriminate H|intros (d' & H & _); discriminate H].
+  - unfold var_close. cbn zeta. rewrite andb_true_iff, orb_true_iff, !Qle_bool_iff. split.
+    + intros [A B]. exists d. auto.
+    + intros (d' & H & A & B). injection H as <-. auto.
+Qed.
+
 (* THE MEANING OF THE PER-MEASURE CHECK: no clause is reported iff the count
    is the expected one, minimum and maximum are exactly the expected
    rationals, and sum / mean / squared deviation lie within the stated relative
@@ -64,11 +90,11 @@ Theorem snap_diff_nil_iff : forall e o,
    reported_num (o_max o) (s_max e) 0 /\
    reported_num (o_sum o) (s_sum e) (eps * mag * nq) /\
    reported_num (o_avg o) (s_avg e) (eps * mag) /\
-   reported_dev (o_dev o) (s_dev e) (4 * eps * mag * mag)).
+   reported_var (o_dev o) (s_dev e) mag).
 Proof.
   intros e o mag nq. unfold snap_diff. fold mag. fold nq.
   repeat rewrite app_nil_iff. repeat rewrite clause_nil.
-  rewrite Nat.eqb_eq. repeat rewrite num_close_iff. rewrite dev_close_iff. tauto.
+  rewrite Nat.eqb_eq. repeat rewrite num_close_iff. rewrite dev_close_v_iff. tauto.
 Qed.
 
 (* each violated clause number names the statistic that differs *)
@@ -126,7 +152,8 @@ Local Open Scope string_scope.
 Local Open Scope list_scope.
 
 Definition row_ok (cnt : bool) (r : recs) (k : string) (row : string * osnap) : Prop :=
-  fst row = k /\ exists l, rec_find r k = Some l /\ dsel cnt (exact l) (snd row) = [].
+  fst row = k /\ exists l, rec_find r k = Some l /\
+                 dsel (cnt && is_time_name k) (exact l) (snd row) = [].
 
 (* [rows_check] reports nothing iff the reported rows are, in order, exactly the
    expected measure names, each with statistics accepted by [snap_diff] against
